@@ -245,4 +245,5 @@ func main() {
 		ops := rx.GenHistory(r, nops, h%9 == 0)
 		runHistory(o, h, ops, h%10 == 0)
 	}
+	failHistories(o)
 }
